@@ -640,7 +640,21 @@ func (g *gen) ifaceDecl() {
 	embedded := map[string]bool{}
 	for i := 0; i < ne; i++ {
 		var e string
-		switch g.pick("embedkind", 8) {
+		switch g.pick("embedkind", 12) {
+		case 5:
+			// interfaces whose methods mention types of packages which the
+			// generated package does not import itself (time, io/fs, image/color)
+			e = g.imp("context") + ".Context"
+			g.label("iface-embeds-foreign-signature")
+		case 6:
+			e = g.imp("os") + ".FileInfo"
+			g.label("iface-embeds-foreign-signature")
+		case 7:
+			e = g.imp("io/fs") + ".DirEntry"
+			g.label("iface-embeds-foreign-signature")
+		case 8:
+			e = g.imp("image") + ".Image"
+			g.label("iface-embeds-foreign-signature")
 		case 0:
 			e = g.imp("io") + ".Reader"
 		case 1:
